@@ -421,6 +421,21 @@ def classify(T, cfg, tree, j, r):
     return None
 
 
+def odd_field(T, t):
+    """some field name has an empty first component ('' or '.x')"""
+    return any(isinstance(n, T.SearchField) and n.name.split(".")[0] == "" for _, n in gentree.all_nodes(t))
+
+
+def has_empty_nested(j):
+    if isinstance(j, dict):
+        if isinstance(j.get("nested"), dict) and j["nested"].get("path") == "":
+            return True
+        return any(has_empty_nested(v) for v in j.values())
+    if isinstance(j, list):
+        return any(has_empty_nested(v) for v in j)
+    return False
+
+
 def sem_config(cfg):
     for o in (cfg.get("field_options") or {}).values():
         for k in ("match_type", "type"):
@@ -471,6 +486,7 @@ def witnesses(T, parser):
          [parser.parse("a:(b.c:x AND b.c:y)"), parser.parse("a.b.c:x")], "F8"),
         ({"nested_fields": {"a": ["b"]}, "default_field": "a.b"},                      # F17
          [parser.parse("x"), parser.parse("NOT x"), parser.parse("a.b:x")], "F17"),
+        ({}, [parser.parse(".a:foo")], "F18"),
         ({"nested_fields": {"a": {"b": ["c"], "d": None}}},
          [parser.parse(q) for q in ["a:(b.c:x AND d:y)", "a:(b.c:x)", "a.b.c:x AND a.d:y", "NOT a:(NOT d:x)",
                                     "a:(b:(c:x AND c:y) OR d:z)", "a.d:x a.d:y", "(a.b.c:x)^2", "a:(d:x~2)",
@@ -492,8 +508,16 @@ def correspond(model_ok, res):
         if not (E.supported(T, tree, strict=True) and wf_config(cfg) and sem_config(cfg)):
             stats["unjudged"] += 1
             return []
-        stats["judged"] += 1
         payload = {"config": repr(cfg), "tree": info["desc"]}
+        if odd_field(T, tree):
+            # F18: fields '' / '.x' are taken for fields under the nested path '' that an empty nested_fields
+            # specification flattens to; such trees are not judged otherwise
+            stats["unjudged"] += 1
+            if outcome[0] == "ok" and has_empty_nested(outcome[1]) and not nested_paths(cfg, False):
+                stats["known"]["F18"] = stats["known"].get("F18", 0) + 1
+                return [(dict(payload, why="nested clause on the empty path", json=repr(outcome[1])[:600]), "F18")]
+            return []
+        stats["judged"] += 1
         if outcome[0] == "exc":
             stats["refused"] += 1
             if outcome[1] in DOCUMENTED:
@@ -558,12 +582,12 @@ SPEC = {
     "targets": ["props/C05.vo"],
     "model_targets": ["model/EsBuild.vo", "model/EsSpec.vo", "model/EsSem.vo"],
     "module": "C05",
-    "theorems": ["C05_reject", "C05_boolean_partial", "C05_refuted", "C05_refuted_F8", "C05_refuted_F17"],
+    "theorems": ["C05_reject", "C05_boolean_partial", "C05_refuted", "C05_refuted_F8", "C05_refuted_F17", "C05_refuted_F18"],
     "correspond": correspond,
     "statement": "on supported trees and well-formed configurations the builder raises a documented inconsistency "
                  "exception or returns a JSON that matches (reference semantics of bool / nested / leaf clauses, "
                  "EsSem.es_eval) exactly the documents the tree denotes (EsSem.den).  Full statement refuted "
-                 "(F6, F8, F17); the reject clause is proved in full; the equivalence is proved for configurations "
+                 "(F6, F8, F17, F18); the reject clause is proved in full; the equivalence is proved for configurations "
                  "without nested fields and trees without the F6 shape (C05_boolean_partial); nested meaning is "
                  "checked on the implementation by the oracle only",
     "trusted_base": [
@@ -593,5 +617,6 @@ SPEC = {
         "BoolOperation denotes the Lucene boolean query with -x / NOT x read as the complement (a purely "
         "negative BoolOperation matches the complement, as the property text says, not nothing as in Lucene)",
         "default_operator values other than SHOULD act as MUST (as in the code)",
+        "trees with a field named '' or '.x' are judged only for finding F18",
     ],
 }
